@@ -156,7 +156,9 @@ pub(crate) fn iso_days_in_month(year: i32, month: u8) -> u8 {
     match month {
         1 | 3 | 5 | 7 | 8 | 10 | 12 => 31,
         4 | 6 | 9 | 11 => 30,
-        2 => 28 + mathematical_in_leap_year(epoch_time_for_year(year)) as u8,
+        // NOTE: The leap year rule has a period of 400 years; the reduced year keeps the epoch
+        // equations below inside their range for every `i32` year.
+        2 => 28 + mathematical_in_leap_year(epoch_time_for_year(year.rem_euclid(400) + 1600)) as u8,
         _ => unreachable!("ISODaysInMonth panicking is an implementation error."),
     }
 }
